@@ -1,6 +1,8 @@
 """Property -> harness modules.  A module may host conditions of several properties
 (the registry is filtered by property id)."""
 PROPS = {
+    'C05': ['mpgverif.harness.kernel_vpd'],
+    'C09': ['mpgverif.harness.kernel_vpd'],
     'C08': ['mpgverif.harness.c08_novel_orf'],
     'C18': ['mpgverif.harness.c18_bookkeeping'],
     'C20': ['mpgverif.harness.c20_decoy'],
@@ -12,7 +14,7 @@ PROPS = {
     'C10': ['mpgverif.harness.c10_rules', 'mpgverif.harness.c10_digest', 'mpgverif.harness.c12_index'],
     'C11': ['mpgverif.harness.c11_coords', 'mpgverif.harness.c11_gene', 'mpgverif.harness.c11_ondisk'],
     'C12': ['mpgverif.harness.c12_index'],
-    'C04': ['mpgverif.harness.callvariant_loop', 'mpgverif.harness.c12_index'],
+    'C04': ['mpgverif.harness.callvariant_loop', 'mpgverif.harness.c12_index', 'mpgverif.harness.kernel_vpd'],
     'C06': ['mpgverif.harness.callvariant_loop', 'mpgverif.harness.c12_index'],
     'C07': ['mpgverif.harness.callvariant_loop', 'mpgverif.harness.c07_wrapper'],
 }
